@@ -216,7 +216,7 @@ func c19schedules(ctx *vc.Ctx) {
 			}
 			scn := "sched/" + cf.name
 			// every program combination is its own exploration; statistics are pooled per configuration
-			ctx.Explore(vc.ExploreOpts{Name: fmt.Sprintf("%s#%d", scn, ci), Bound: 1 << 20, MaxSteps: 2000}, body, check)
+			ctx.Explore(vc.ExploreOpts{Name: fmt.Sprintf("%s#%d", scn, ci), Bound: 1 << 20, FreeSwitches: true, MaxSteps: 2000}, body, check)
 		}
 		// pool per-combination scenarios into one record
 		poolScenarios(ctx, "sched/"+cf.name+"#", "sched/"+cf.name)
